@@ -212,6 +212,13 @@ fn history_block(b: u64) -> BlockReport {
         std::hint::black_box(guard(|| m.add_storage_header(None).as_bytes().len()).ok());
         judge(1000, base_s * 1000 + 251, &mut rep);
     }
+    // the second the harness logger's own clock lies in (a log sink stamps its records with from_ms / from_us of its clock
+    // on the calling thread, also from inside a conversion that logs)
+    judge(1000, base_s * 1000 + 500, &mut rep);
+    judge(1000, 1_700_000_000_255, &mut rep);
+    judge(1_000_000, (base_s + 1) * 1_000_000 + 5, &mut rep);
+    judge(1_000_000, 1_700_000_000_123_999, &mut rep);
+    judge(1000, 1_699_999_999_999, &mut rep);
     // several independent clocks interleaved on one thread: clock A advances in sub-second steps across second
     // boundaries (forward, then backward) while unrelated instants B and C are converted between its steps
     let far = crate::util::splitmix64(0xC17F ^ b) % ((1u64 << 32) - 8) + 4;
